@@ -124,7 +124,7 @@ func c07Rules(p *core.Prog, r *core.Run) {
 			}
 		}
 	}
-	r.Floor("C07.B2", 6)
+	r.Floor("C07.B2", 5) // first flight, Read drain, Read record, Write append, Write drain
 
 	// --- B3
 	rd := m.read
@@ -254,8 +254,10 @@ func c07Rules(p *core.Prog, r *core.Run) {
 					if f.Op == "<" && f.R.Name == "5" && f.L.Op == "call" && f.L.Name == "len" {
 						short5 = b == h
 					}
-					if f.Op == ">" && isRecordSize(m, f.L, "writeBuf") && f.R.Op == "call" && f.R.Name == "len" {
-						incomplete = true
+					for _, g := range []core.Fact{f, f.Flipped()} {
+						if g.Op == ">" && isRecordSize(m, g.L, "writeBuf") && g.R.Op == "call" && g.R.Name == "len" {
+							incomplete = true
+						}
 					}
 				}
 				r.Check("C07.B4", key, isRet || short5 || incomplete, p.InstrPos(b.Instrs[len(b.Instrs)-1]), "the record loop is left with an error (%v), with fewer than 5 bytes pending (%v) or with less than one whole record pending (%v)", isRet, short5, incomplete)
